@@ -279,7 +279,8 @@ func (ex *Exec) abiPack(types []string, vals []Value) []Term {
 				panic(unsupported{fmt.Sprintf("abi uint256 from %T", v)})
 			}
 			if ex.decide(Or(Lt(t, IntC(0)), Ge(t, IntB(pow2(256))))) {
-				panic(pathEnd{"abi: uint256 out of range"}) // go-ethereum would mis-encode; outside every claim
+				// go-ethereum packs math.U256Bytes(n): the value modulo 2^256 (two's complement for negatives)
+				_, t = ex.divModPos(ex.nameT(t), pow2(256))
 			}
 			head = append(head, ex.beBytes(t, 32)...)
 		case "bool":
